@@ -8,6 +8,7 @@ pub mod c05;
 pub mod c06;
 pub mod c06_nodes;
 pub mod c07;
+pub mod c07_rogue;
 pub mod c08;
 pub mod c08_nodes;
 pub mod c08_slow;
@@ -17,6 +18,7 @@ pub mod c10;
 pub mod c11;
 pub mod c12;
 pub mod c13;
+pub mod c11_rogue;
 pub mod c13_rogue;
 pub mod c14;
 pub mod c15;
